@@ -163,9 +163,11 @@ func (c *ConfigSender) Derive(adjust curve.Scalar, newChainKey []byte) (*ConfigS
 
 	adjustG := adjust.ActOnBase()
 
+	// The shares are additive: the receiver's share absorbs the adjustment (see ConfigReceiver.Derive),
+	// so the sender's share stays the same and only the public key moves.
 	return &ConfigSender{
 		Setup:       c.Setup,
-		SecretShare: c.SecretShare.Curve().NewScalar().Set(c.SecretShare).Add(adjust),
+		SecretShare: c.SecretShare.Curve().NewScalar().Set(c.SecretShare),
 		Public:      c.Public.Add(adjustG),
 		ChainKey:    newChainKey,
 	}, nil
